@@ -24,9 +24,9 @@ func init() {
 func scOverrides() map[string]any {
 	return map[string]any{
 		"smart_contracts.minersc.owner_id":               world.FileKey("owner", "b0owner_keys.txt").ID,
-		"smart_contracts.minersc.min_stake":              1e-9, // 10 units
-		"smart_contracts.minersc.max_stake":              1e-8, // 100 units
-		"smart_contracts.minersc.min_stake_per_delegate": 1e-9, // provider eligible for rewards from 10 units of stake
+		"smart_contracts.minersc.min_stake":              1e-9,   // 10 units
+		"smart_contracts.minersc.max_stake":              1e-8,   // 100 units
+		"smart_contracts.minersc.min_stake_per_delegate": 1e-9,   // provider eligible for rewards from 10 units of stake
 		"smart_contracts.minersc.block_reward":           2.3e-9, // 23 units
 		"smart_contracts.minersc.share_ratio":            0.3,
 		"smart_contracts.minersc.num_sharders_rewarded":  2,
